@@ -106,8 +106,8 @@ def gen_schema(rng):
     names = rng.sample(NAMES + ['e', 'f', 'g', 'h'], len(kinds))
     fields = []
     for name, kind in zip(names, kinds):
-        alias_src = rng.choice([None, None, "meta", "ann", "cfg"])
-        if kind == "omit" and alias_src == "ann":
+        alias_src = rng.choice([None, None, "meta", "ann", "cfg", "ann2"])
+        if kind == "omit" and alias_src in ("ann", "ann2"):
             alias_src = None
         fields.append({"name": name, "kind": kind, "alias_src": alias_src, "alias": f"AL_{name}" if alias_src else None})
     # two bases declaring the same field differently: M(P1, P2); dataclasses (and the property's "field default" /
@@ -169,8 +169,19 @@ def nested_src(nc):
 
 def class_src(schema, name, on, od, ba, sort_keys, flags, lazy, dvec):
     lines = []
+    dialect_expr = f"D_{name}"
     if dvec is not None:
-        lines += [f"class D_{name}(Dialect):"] + [f"    {k} = {v}" for k, v in dvec.items()]
+        style = sum(map(ord, name)) % 3
+        if style == 0:
+            lines += [f"class D_{name}(Dialect):"] + [f"    {k} = {v}" for k, v in dvec.items()]
+        else:
+            # the options are INHERITED from a parent dialect
+            lines += [f"class DP_{name}(Dialect):"] + [f"    {k} = {v}" for k, v in dvec.items()]
+            lines += [f"class D_{name}(DP_{name}):", "    pass"]
+            if style == 2:
+                # ... and reach the class through Dialect.merge (what format codecs do with a default_dialect)
+                lines += [f"class DB_{name}(Dialect):", "    no_copy_collections = ()"]
+                dialect_expr = f"DB_{name}.merge(D_{name})"
     inh = schema.get("inherit")
     by_name = {f["name"]: f for f in schema["fields"]}
     cfg_aliases = {}
@@ -179,6 +190,9 @@ def class_src(schema, name, on, od, ba, sort_keys, flags, lazy, dvec):
         ann, dsrc, fac, values, enc = KINDS[f["kind"]]
         if f["alias_src"] == "ann":
             ann = f"Annotated[{ann}, Alias({f['alias']!r})]"
+        elif f["alias_src"] == "ann2":
+            # a reusable annotated type carrying an alias of its own, re-annotated by the field: the LAST alias counts
+            ann = f"Annotated[Annotated[{ann}, Alias({'INNER_' + f['name']!r})], 'doc', Alias({f['alias']!r})]"
         meta = []
         if stale:
             dsrc = ALT_DEFAULT[f["kind"]]
@@ -242,7 +256,7 @@ def class_src(schema, name, on, od, ba, sort_keys, flags, lazy, dvec):
     if cfg_aliases:
         extra.append(f"aliases = {cfg_aliases!r}")
     if dvec is not None:
-        extra.append(f"dialect = D_{name}")
+        extra.append(f"dialect = {dialect_expr}")
     lines += ["        " + b for b in cfg_lines(on, od, ba, extra)]
     return "\n".join(lines) + "\n"
 
@@ -297,7 +311,12 @@ def run_case(seed, tier, rec, st):
         mod = fam.module
         nc = schema["nested_cfg"]
         callvec = schema["call_vector"]
-        fam.exec_src("class CallD(Dialect):\n" + "\n".join(f"    {k} = {v}" for k, v in callvec.items()) + "\n")
+        if rng.random() < 0.5:
+            fam.exec_src("class CallD(Dialect):\n" + "\n".join(f"    {k} = {v}" for k, v in callvec.items()) + "\n")
+        else:
+            fam.exec_src("class CallDP(Dialect):\n" + "\n".join(f"    {k} = {v}" for k, v in callvec.items()) + "\n"
+                         "class CallDC(CallDP):\n    pass\nclass CallDB(Dialect):\n    pass\nCallD = CallDB.merge(CallDC)\n")
+            rec.count("call_dialect_inherited_and_merged")
         CallD = mod.CallD
         idx = 0
         schema_sig = tuple((f["kind"], f["alias_src"]) for f in schema["fields"]) + (bool(schema["inherit"]),)
@@ -341,6 +360,8 @@ def run_case(seed, tier, rec, st):
                 kwsets += [{"omit_none": True, "by_alias": True}]
             if "ADD_DIALECT_SUPPORT" in flags:
                 kwsets += [dict(k, dialect=CallD) for k in list(kwsets)]
+            # which keyword vector makes the FIRST (for a lazy class: the compiling) call varies
+            random.Random(seed * 1000003 + idx).shuffle(kwsets)
             for row in value_rows:
                 try:
                     kwargs = {n: (eval(v, mod.__dict__) if isinstance(v, str) and (v.startswith("N(") or v.startswith("Color.")) else v)
